@@ -14,7 +14,7 @@ RULE = ("random positive spectra of the admissible dimensionality with UNEQUAL a
         "then `stat`); every statistic named by the property before and after `fold --fill zero`; with the two monomorphic "
         "entries overwritten by arbitrary values; after swapping the two populations (transposed text); after scaling by "
         "c in {0.5, 3, 1000, 2^-20 (total below one)}. All values from `sfs stat --precision 15`, compared within 1e-9 relative. non-trivial = "
-        "statistic value non-zero")
+        "statistic value non-zero; monomorphic entries overwritten by values of 1e17 .. 1e300")
 
 FOLD_INV = ["pi", "theta", "s", "d-tajima", "pi-xy", "f2", "f3", "f4", "fst", "king", "r0", "r1"]
 MONO_FREE = [s for s in STATS if s not in ("sum", "f2", "f3", "f4")]
@@ -96,6 +96,16 @@ def check(rep, tier, seed):
             d2 = list(data); d2[0] = rng.randrange(0, 10000); d2[-1] = rng.randrange(0, 10000)
             cases.append((st, sh, d2)); expect.append((refv[(st, tuple(sh), tuple(data))], (st, sh, data)))
     compare("monomorphic-overwritten", cases, expect)
+    # ... by values many orders of magnitude above everything else (a genome's worth of invariant sites against a few
+    # hundred variable ones): they must not enter the computation at all - adding them in and subtracting them again
+    # would swamp the polymorphic entries
+    cases, expect = [], []
+    for st, sh, data in base:
+        if st in MONO_FREE:
+            for first, last in (("1e17", "4"), ("5", "3e17"), ("2.5e300", "1e299")):
+                d2 = list(map(str, data)); d2[0] = first; d2[-1] = last
+                cases.append((st, sh, d2)); expect.append((refv[(st, tuple(sh), tuple(data))], (st, sh, data)))
+    compare("monomorphic-huge", cases, expect)
     # swap populations
     cases, expect = [], []
     for st, sh, data in base:
